@@ -105,6 +105,11 @@ def r4_resources_once(r, facts):
     for loc, t in aid:
         r.inst('assume_init_drop', f.where(loc))
         ok = any(f.edge_dominates(ce, loc) for ce in ves[0]['complement'])
+        if not ok:
+            # the test may be turned into a flag first (`let initialised = match status { Complete => false, _ => true }`):
+            # every path to the drop passes the test, and none arrives over its Complete edge (value-driven)
+            sw = f.term_loc(ves[0]['si']['bb'])
+            ok = f.dominates(sw, loc) and f.forward_paths_hit([Loc(comp_edge[1], 0)], [loc], blockers=[sw]) is None
         r.require(ok, 'drop_state/guard', 'resources are dropped without the status != Complete test dominating it', f.where(loc))
         hit = f.forward_paths_hit([Loc(comp_edge[1], 0)], [loc])
         r.require(hit is None, 'drop_state/double-drop', 'resources dropped although the status is Complete (they were already moved out)', f.where(loc))
